@@ -36,7 +36,7 @@ def jobs(tier):
 
 def job_bound(job, tier):
     """4 leaves (335 regroupings per execution) get one deviation less"""
-    return BOUND(tier) - (1 if len(job[1]) >= 4 else 0)
+    return BOUND(tier)
 
 
 _REGROUP = {}
